@@ -865,6 +865,16 @@ Fixpoint csat_impl (s : store) (e : env) (primary : bool) (c : cst) (it : item) 
 Definition dedup_first (l : list item) : list item :=
   fold_left (fun acc it => if existsb (item_eqb it) acc then acc else acc ++ [it]) l [].
 
+(** ** A collection of items (their handles) kept from an earlier query and used again after the
+   store has changed: as the constraint Annotations / Data / Keys / Resources of a query for that
+   type, through Handles::items(), or as the argument of filter_any.  FromHandles skips the handles
+   that no longer resolve (handles are not reused), so what comes back is the members still there. *)
+Definition outer_items (rows : list (list item)) : list item :=
+  dedup_first (flat_map (fun r => match r with it :: _ => [it] | [] => [] end) rows).
+Definition survivors (s : store) (l : list item) : list item := filter (item_live s) l.
+Definition coll_after (s : store) (rows : list (list item)) (victim : option item) : list item :=
+  survivors (match victim with Some v => rm_item s v | None => s end) (outer_items rows).
+
 (* stored order of a Multi/Composite selector: selectors with text by (resource, begin, end),
    whole annotations after them by handle (AnnotationStore::subselectors); Directional: as given *)
 Fixpoint lex_ltb (a b : list nat) : bool :=
